@@ -95,6 +95,8 @@ def run(ctx, log):
     # (d) debug build
     dbg = vlib.nlh("eval", lines, tag="c16d", profile="debug", timeout=900)
     compare("by the debug build", dbg)
+    # (e) the command-line program built without the observation hooks, one process per program
+    progcheck.run_production(ctx, log, [progs[i] for i in sorted(rng.sample(range(len(progs)), min(len(progs), 120 if ctx.quick else 1200)))], budget=20000)
     # the model's single answer
     pick = sorted(rng.sample(range(len(progs)), min(len(progs), 250 if ctx.quick else 2500)))
     runcorr.run_corr(ctx, [progs[i] for i in pick], log, budget=20000, stages=("eval",), label="model")
